@@ -264,6 +264,8 @@ type c09Scenario struct {
 	parties []*party
 	trace   []string
 	failed  bool
+	// watch: Go values of the caller that were passed as arguments (spread slices); each returns "" while unchanged
+	watch []func() string
 }
 
 func (s *c09Scenario) input() string { return "scenario:\n  " + strings.Join(s.trace, "\n  ") }
@@ -281,6 +283,13 @@ func (s *c09Scenario) add(name string, v any) *party {
 
 // verify compares all parties except `changed` with their last snapshot.
 func (s *c09Scenario) verify(changed *party, sig, after string) {
+	for _, w := range s.watch {
+		if d := w(); d != "" {
+			s.failed = true
+			s.c.Violate("argument-slice-modified-later", s.input(), "a slice the caller passed as argument stays the caller's, also after "+after, d)
+			return
+		}
+	}
 	for _, p := range s.parties {
 		if p.frozen {
 			continue
@@ -515,6 +524,9 @@ func (s *c09Scenario) deriveObject(recv at.Object, arg at.Object, which int) (na
 			dup := pick[r.Intn(len(pick))]
 			pick = append(pick[:at], append([]string{dup}, pick[at:]...)...)
 		}
+		// the caller's slice has spare capacity, marked so that a write into it shows
+		pick = append(make([]string, 0, len(pick)+2), pick...)
+		pick[:len(pick)+1][len(pick)] = "spare-slot-of-the-caller"
 		before := append([]string{}, pick...)
 		res := recv.Pluck(pick...)
 		for i := range before {
@@ -524,6 +536,26 @@ func (s *c09Scenario) deriveObject(recv at.Object, arg at.Object, which int) (na
 				break
 			}
 		}
+		// the slice stays the caller's for good: whatever is done to the result (or anything else) later must not reach it
+		keep := append([]string{}, before...)
+		held := pick
+		s.watch = append(s.watch, func() string {
+			if len(held) != len(keep) {
+				return fmt.Sprintf("the keys slice passed to Pluck changed its length: %q", held)
+			}
+			for i := range keep {
+				if held[i] != keep[i] {
+					return fmt.Sprintf("the keys slice passed to Pluck was %q and is now %q", keep, held)
+				}
+			}
+			// the spare capacity behind it is the caller's too
+			if cap(held) > len(held) {
+				if ext := held[:len(held)+1]; ext[len(held)] != "spare-slot-of-the-caller" {
+					return fmt.Sprintf("the spare capacity behind the keys slice passed to Pluck was written: %q", ext[len(held)])
+				}
+			}
+			return ""
+		})
 		return fmt.Sprintf("Pluck(%q...)", before), res
 	case 3:
 		return "Keys()", recv.Keys()
